@@ -81,6 +81,7 @@ theorem biggestDim_suffix : ∀ (dims : List (List Int)) (k largest best : Nat) 
         | mutant _ => simp at h
         | parents _ => simp at h
         | inits _ => simp at h
+        | vec _ => simp at h
     · split at h
       · exact ih _ _ _ _ _ _ h
       · exact ih _ _ _ _ _ _ h
@@ -290,19 +291,6 @@ theorem dirEvaluate_spec {sp : Space} {s s' : DirSt} {score : F} {log : Log} (g 
     | cons x rest =>
       rw [htape] at h
       cases x with
-      | spiral v =>
-        cases v with
-        | nil => simp at h
-        | cons b vs =>
-          cases vs with
-          | cons _ _ => simp at h
-          | nil =>
-            simp only [Except.ok.injEq] at h
-            subst h
-            refine ⟨List.suffix_cons _ _, rfl, ?_, g2⟩
-            cases hc : s.cur with
-            | none => simpa [hc] using hsub
-            | some i => simpa [hc] using subIn_modify hsub i score b
       | unif _ => simp at h
       | climb _ _ => simp at h
       | dist _ _ => simp at h
@@ -317,6 +305,20 @@ theorem dirEvaluate_spec {sp : Space} {s s' : DirSt} {score : F} {log : Log} (g 
       | mutant _ => simp at h
       | parents _ => simp at h
       | inits _ => simp at h
+      | spiral _ => simp at h
+      | vec v =>
+        cases v with
+        | nil => simp at h
+        | cons b vs =>
+          cases vs with
+          | cons _ _ => simp at h
+          | nil =>
+            simp only [Except.ok.injEq] at h
+            subst h
+            refine ⟨List.suffix_cons _ _, rfl, ?_, g2⟩
+            cases hc : s.cur with
+            | none => simpa [hc] using hsub
+            | some i => simpa [hc] using subIn_modify hsub i score b
 
 /-- the body `evaluate_init` shares with the SMBO `evaluate` keeps the tracker grounded -/
 theorem grounded_smboEvalBody {log : Log} {t : Tracker} (g : Grounded log t) (s : F) (hmem : (t.posNew, s) ∈ log) :
@@ -467,8 +469,8 @@ theorem inv_fresh (sp : Space) (nInits : Nat) (initL : List Pos) (tape : Tape) :
 def exSpace : Space := { names := ["x"], dims := [[0, 1, 2, 3, 4]] }
 def exCfg : DirCfg := { sizes := exSpace.sizes, epsMod := 3/10, geo := exSpace.geo }
 def exTape : Tape :=
-  [.feas [2] true, .spiral [.fin 1],       -- the centre of the whole space, and its bound
-   .feas [4] true, .spiral [.fin 1]]       -- after the split into [0,1] [2,3] [4]: the centre of the last child
+  [.feas [2] true, .vec [.fin 1],       -- the centre of the whole space, and its bound
+   .feas [4] true, .vec [.fin 1]]       -- after the split into [0,1] [2,3] [4]: the centre of the last child
 def exObj : Obj := fun _ _ _ => ({ score := .fin 1, metrics := [] }, 0)
 def exD : DState DirSt := { nInits := 1, bst := { initL := [[2]], tape := exTape } }
 
